@@ -129,10 +129,10 @@ theorem render_succ (inl : Mode) (files : Files) (f : Nat) (rng : Rng) (ns : Lis
 /-! ## "`p` is a prepared form of the raw stream `r`"
 
 `zone = true` inside an element that a match template may rewrite (tag in `T`) and inside match
-template bodies: there the match range is restricted, a run-time include restarts it, and
-nothing may have been inlined.  Outside (`zone = false`) a statically named include may have
-been replaced by the (prepared, marked) stream of its target, or by its prepared fallback when
-the target does not exist. -/
+template bodies: there the match window is restricted and a run-time include restarts it.  A
+statically named include may have been replaced by the (prepared, marked) stream of its target,
+or by its prepared fallback when the target does not exist; inside a zone only when what was
+inlined does not depend on the window (`winfreeL`). -/
 inductive PrepL (T : List Name) (files : Files) : Bool → List Node → List Node → Prop
   | nil {z} : PrepL T files z [] []
   | text {z s r r'} : PrepL T files z r r' → PrepL T files z (.text s :: r) (.text s :: r')
@@ -153,14 +153,16 @@ inductive PrepL (T : List Name) (files : Files) : Bool → List Node → List No
       PrepL T files z (.inlined b :: r) (.inlined b' :: r')
   | keep {z h c hf fb fb' p r r'} : PrepL T files false fb fb' → PrepL T files z r r' →
       PrepL T files z (.include h c hf fb p :: r) (.include h c hf fb' p :: r')
-  | inlineFound {h c hf fb p name body body' r r'} :
+  | inlineFound {z h c hf fb p name body body' r r'} :
       resolve p h = some name → files.find name = some ⟨c, some body⟩ →
-      PrepL T files false body body' → PrepL T files false r r' →
-      PrepL T files false (.include (.static h) c hf fb p :: r) (.inlined body' :: r')
-  | inlineMissing {h c fb fb' p name r r'} :
+      (z = true → winfreeL T body = true) →
+      PrepL T files false body body' → PrepL T files z r r' →
+      PrepL T files z (.include (.static h) c hf fb p :: r) (.inlined body' :: r')
+  | inlineMissing {z h c fb fb' p name r r'} :
       resolve p h = some name → files.find name = none →
-      PrepL T files false fb fb' → PrepL T files false r r' →
-      PrepL T files false (.include (.static h) c true fb p :: r) (fb' ++ r')
+      (z = true → winfreeL T fb = true) →
+      PrepL T files false fb fb' → PrepL T files z r r' →
+      PrepL T files z (.include (.static h) c true fb p :: r) (fb' ++ r')
 
 theorem PrepL.append {T files z a a' b b'} (ha : PrepL T files z a a') (hb : PrepL T files z b b') :
     PrepL T files z (a ++ b) (a' ++ b') := by
@@ -177,10 +179,10 @@ theorem PrepL.append {T files z a a' b b'} (ha : PrepL T files z a a') (hb : Pre
   | matchT ht h1 _ _ ih => exact .matchT ht h1 (ih hb)
   | inlined h1 _ _ ih => exact .inlined h1 (ih hb)
   | keep h1 _ _ ih => exact .keep h1 (ih hb)
-  | inlineFound hr hf h1 _ _ ih => exact .inlineFound hr hf h1 (ih hb)
-  | inlineMissing hr hf h1 _ _ ih =>
+  | inlineFound hr hf hw h1 _ _ ih => exact .inlineFound hr hf hw h1 (ih hb)
+  | inlineMissing hr hf hw h1 _ _ ih =>
     rw [List.cons_append, List.append_assoc]
-    exact .inlineMissing hr hf h1 (ih hb)
+    exact .inlineMissing hr hf hw h1 (ih hb)
 
 
 
@@ -381,11 +383,42 @@ def LoadOK (T : List Name) (files : Files) : Prop :=
     | .fuel => False
 
 /-- how the match windows of the two runs are coupled.  Either both runs are in the same markup
-pipeline with the same window, which is the full one outside zones; or the stream is textual
-(nothing in it consults the window): then the run-time run may be in a text template's pipeline
-while the inline run, the text template having been inlined, still is in the includer's -/
-def Coup (z : Bool) (rngR rngI : Rng) (raw : List Node) : Prop :=
-  (rngR = rngI ∧ rngR.nomt = false ∧ (z = false → rngR = .full)) ∨ (z = false ∧ textualL raw = true)
+pipeline with the same window, which is the full one outside zones; or the stream does not depend
+on the window (`winfreeL`: e.g. a text template, or a fragment without matchable elements): then
+the run-time run may be in the included template's own pipeline while the inline run, the
+template having been inlined, still is under the includer's window -/
+def Coup (T : List Name) (z : Bool) (rngR rngI : Rng) (raw : List Node) : Prop :=
+  (rngR = rngI ∧ rngR.nomt = false ∧ (z = false → rngR = .full)) ∨ winfreeL T raw = true
+
+mutual
+theorem winfreeN_of_textual (T : List Name) : ∀ n : Node, textualN n = true → winfreeN T n = true
+  | .text _, _ => rfl
+  | .var _, _ => rfl
+  | .call _, h => by simp [textualN] at h
+  | .select, h => by simp [textualN] at h
+  | .elem _ _, h => by simp [textualN] at h
+  | .matchT _ _, h => by simp [textualN] at h
+  | .cond _ b, h => by simp only [textualN] at h; simp only [winfreeN]; exact winfreeL_of_textual T b h
+  | .loop _ _ b, h => by simp only [textualN] at h; simp only [winfreeN]; exact winfreeL_of_textual T b h
+  | .inlined b, h => by simp only [textualN] at h; simp only [winfreeN]; exact winfreeL_of_textual T b h
+  | .defn _ _, _ => rfl
+  | .include (.static _) cls _ fb _, h => by
+    simp only [textualN, Bool.and_eq_true] at h
+    simp only [winfreeN, Bool.and_eq_true]
+    exact ⟨h.1, winfreeL_of_textual T fb h.2⟩
+  | .include (.dyn _) cls _ fb _, h => by
+    simp only [textualN, Bool.and_eq_true] at h
+    simp only [winfreeN]
+    exact winfreeL_of_textual T fb h.2
+termination_by structural n => n
+theorem winfreeL_of_textual (T : List Name) : ∀ ns : List Node, textualL ns = true → winfreeL T ns = true
+  | [], _ => rfl
+  | n :: ns, h => by
+    simp only [textualL, Bool.and_eq_true] at h
+    simp only [winfreeL, Bool.and_eq_true]
+    exact ⟨winfreeN_of_textual T n h.1, winfreeL_of_textual T ns h.2⟩
+termination_by structural ns => ns
+end
 
 /-- text templates are textual (from `inH`) -/
 def TextOK (files : Files) : Prop :=
@@ -393,18 +426,21 @@ def TextOK (files : Files) : Prop :=
 
 /-- entering a stream at lower fuel preserves the relation (induction hypothesis on fuel) -/
 def JRel (T : List Name) (files : Files) (J J' : RJ) : Prop :=
-  ∀ z rngR rngI raw prep s s', PrepL T files z raw prep → Coup z rngR rngI raw → StRel T files s s' →
+  ∀ z rngR rngI raw prep s s', PrepL T files z raw prep → Coup T z rngR rngI raw → StRel T files s s' →
     RRel T files (J rngR raw s) (J' rngI prep s')
 
-theorem Coup.full {raw : List Node} : Coup false .full .full raw := .inl ⟨rfl, rfl, fun _ => rfl⟩
+theorem Coup.full {T : List Name} {raw : List Node} : Coup T false .full .full raw := .inl ⟨rfl, rfl, fun _ => rfl⟩
 
 /-- the windows after entering a target of class `cls`, whose body is textual when `cls` is text -/
-theorem Coup.ofKind {cls : Kind} {rngI : Rng} {body : List Node}
-    (ht : cls = .text → textualL body = true) (hm : cls = .markup → rngI = .full) :
-    Coup false (.ofKind cls) rngI body := by
+theorem Coup.ofKind {T : List Name} {z : Bool} {cls : Kind} {rngI : Rng} {body : List Node}
+    (ht : cls = .text → textualL body = true) (hm : cls = .markup → rngI = .full ∨ winfreeL T body = true) :
+    Coup T z (.ofKind cls) rngI body := by
   cases cls with
-  | markup => rw [hm rfl]; exact .full
-  | text => exact .inr ⟨rfl, ht rfl⟩
+  | markup =>
+    rcases hm rfl with h | h
+    · rw [h]; exact .inl ⟨rfl, rfl, fun _ => rfl⟩
+    · exact .inr h
+  | text => exact .inr (winfreeL_of_textual T body (ht rfl))
 
 theorem loadRaw_text {files : Files} (htx : TextOK files) {name : Name} {cls : Kind} {body : List Node}
     (h : loadRaw files name cls = .ok body) : cls = .text → textualL body = true := by
@@ -433,38 +469,53 @@ theorem seq_rel {T files} {x x' : R} {k k' : St → R}
   intro r2 r2' ho2 hs2
   exact ⟨by rw [ho, ho2], hs2⟩
 
-theorem Coup.tail {z rR rI n r} (h : Coup z rR rI (n :: r)) : Coup z rR rI r := by
-  rcases h with h | ⟨hz, ht⟩
+theorem Coup.tail {T z rR rI n r} (h : Coup T z rR rI (n :: r)) : Coup T z rR rI r := by
+  rcases h with h | ht
   · exact .inl h
-  · simp only [textualL, Bool.and_eq_true] at ht
-    exact .inr ⟨hz, ht.2⟩
+  · simp only [winfreeL, Bool.and_eq_true] at ht
+    exact .inr ht.2
 
-theorem Coup.head_textual {z rR rI n r} (h : Coup z rR rI (n :: r)) (hn : textualN n = false) :
+theorem Coup.head_w {T z rR rI n r} (h : Coup T z rR rI (n :: r)) (hn : winfreeN T n = false) :
     rR = rI ∧ rR.nomt = false ∧ (z = false → rR = .full) := by
-  rcases h with h | ⟨_, ht⟩
+  rcases h with h | ht
   · exact h
-  · simp [textualL, hn] at ht
+  · simp [winfreeL, hn] at ht
 
-theorem Coup.sub {z rR rI n r b} (h : Coup z rR rI (n :: r)) (hb : textualN n = true → textualL b = true) :
-    Coup z rR rI b := by
-  rcases h with h | ⟨hz, ht⟩
-  · exact .inl h
-  · simp only [textualL, Bool.and_eq_true] at ht
-    exact .inr ⟨hz, hb ht.1⟩
+theorem Coup.sub {T z z' rR rI n r b} (h : Coup T z rR rI (n :: r)) (hz : z' = false → z = false)
+    (hb : winfreeN T n = true → winfreeL T b = true) : Coup T z' rR rI b := by
+  rcases h with ⟨he, hn, hf⟩ | ht
+  · exact .inl ⟨he, hn, fun h' => hf (hz h')⟩
+  · simp only [winfreeL, Bool.and_eq_true] at ht
+    exact .inr (hb ht.1)
 
 theorem Rng.fresh_of_nomt {r : Rng} (h : r.nomt = false) : r.fresh = .full := by
   simp [Rng.fresh, Rng.full, h]
 
-theorem Coup.fresh {z rR rI n r fb} (h : Coup z rR rI (n :: r)) (hb : textualN n = true → textualL fb = true) :
-    Coup false rR.fresh rI.fresh fb := by
-  rcases h with ⟨he, hn, _⟩ | ⟨_, ht⟩
+theorem Coup.fresh {T z rR rI n r fb} (h : Coup T z rR rI (n :: r)) (hb : winfreeN T n = true → winfreeL T fb = true) :
+    Coup T false rR.fresh rI.fresh fb := by
+  rcases h with ⟨he, hn, _⟩ | ht
   · subst he
     rw [Rng.fresh_of_nomt hn]; exact .full
-  · simp only [textualL, Bool.and_eq_true] at ht
-    exact .inr ⟨rfl, hb ht.1⟩
+  · simp only [winfreeL, Bool.and_eq_true] at ht
+    exact .inr (hb ht.1)
+
+theorem firstMatchFrom_none_of_notin {T files rng rng' tag} {ms ms' : List (Name × List Node)}
+    (h : All2 (fun a b => a.1 = b.1 ∧ a.1 ∈ T ∧ PrepL T files true a.2 b.2) ms ms') (ht : tag ∉ T) (i : Nat) :
+    firstMatchFrom rng tag ms i = none ∧ firstMatchFrom rng' tag ms' i = none := by
+  induction h generalizing i with
+  | nil => exact ⟨rfl, rfl⟩
+  | @cons a b as bs hab _ ih =>
+    obtain ⟨t, mb⟩ := a
+    obtain ⟨t', mb'⟩ := b
+    obtain ⟨he, hT, _⟩ := hab
+    simp only at he hT
+    subst he
+    have hne : t ≠ tag := fun h => ht (h ▸ hT)
+    simp only [firstMatchFrom, hne, decide_false, Bool.and_false, Bool.false_eq_true, if_false]
+    exact ih (i + 1)
 
 theorem simL {T files} (hload : LoadOK T files) (htx : TextOK files) {J J' : RJ} (hJ : JRel T files J J') :
-    ∀ {z raw prep}, PrepL T files z raw prep → ∀ rR rI s s', Coup z rR rI raw → StRel T files s s' →
+    ∀ {z raw prep}, PrepL T files z raw prep → ∀ rR rI s s', Coup T z rR rI raw → StRel T files s s' →
       RRel T files (renderL .runtime files J rR raw s) (renderL .inlineM files J' rI prep s') := by
   intro z raw prep hp
   induction hp with
@@ -489,7 +540,7 @@ theorem simL {T files} (hload : LoadOK T files) (htx : TextOK files) {J J' : RJ}
     intro rR rI s s' hc h
     rw [renderL_cons, renderL_cons]
     refine seq_rel ?_ (fun s1 s1' h1 => ih rR rI s1 s1' hc.tail h1)
-    obtain ⟨he, hn, hf⟩ := hc.head_textual (by simp [textualN])
+    obtain ⟨he, hn, hf⟩ := hc.head_w (by simp [winfreeN])
     subst he
     rw [renderN_call, renderN_call]
     rcases lookup_rel h.macros m with ⟨h1, h2⟩ | ⟨b, b', h1, h2, hb⟩
@@ -501,7 +552,7 @@ theorem simL {T files} (hload : LoadOK T files) (htx : TextOK files) {J J' : RJ}
     intro rR rI s s' hc h
     rw [renderL_cons, renderL_cons]
     refine seq_rel ?_ (fun s1 s1' h1 => ih rR rI s1 s1' hc.tail h1)
-    obtain ⟨he, hn, hf⟩ := hc.head_textual (by simp [textualN])
+    obtain ⟨he, hn, hf⟩ := hc.head_w (by simp [winfreeN])
     subst he
     rw [renderN_select, renderN_select, ← h.sel]
     cases s.sel with
@@ -512,27 +563,36 @@ theorem simL {T files} (hload : LoadOK T files) (htx : TextOK files) {J J' : RJ}
     intro rR rI s s' hc h
     rw [renderL_cons, renderL_cons]
     refine seq_rel ?_ (fun s1 s1' h1 => ih rR rI s1 s1' hc.tail h1)
-    obtain ⟨he, hn, hf⟩ := hc.head_textual (by simp [textualN])
-    subst he
     rw [renderN_elem, renderN_elem]
-    rcases firstMatchFrom_rel (rng := rR) (tag := t) h.mts 0 with ⟨h1, h2⟩ | ⟨idx, mb, mb', h1, h2, hT, hmb⟩
-    · simp only [firstMatch, h1, h2]
+    by_cases htT : t ∈ T
+    · -- a matchable element: both runs are under the same window
+      obtain ⟨he, hn, hf⟩ := hc.head_w (by simp [winfreeN, htT])
+      subst he
+      rcases firstMatchFrom_rel (rng := rR) (tag := t) h.mts 0 with ⟨h1, h2⟩ | ⟨idx, mb, mb', h1, h2, hT, hmb⟩
+      · simp only [firstMatch, h1, h2]
+        apply RRel.bind
+        · apply ihb rR rR s s' _ h
+          exact .inl ⟨rfl, hn, fun hzz => by simp [htT] at hzz⟩
+        · intro r1 r1' ho hs
+          exact ⟨by rw [ho], hs⟩
+      · simp only [firstMatch, h1, h2]
+        apply RRel.bind
+        · apply ihb _ _ s s' _ h
+          exact .inl ⟨rfl, rfl, fun hzz => by simp [hT] at hzz⟩
+        · intro r1 r1' ho hs
+          apply RRel.bind
+          · exact hJ true _ _ mb mb' _ _ hmb (.inl ⟨rfl, rfl, fun hzz => by cases hzz⟩)
+              { hs with sel := by simp [ho, hs.sel] }
+          · intro r2 r2' ho2 hs2
+            exact ⟨ho2, { hs2 with sel := by simp [hs2.sel] }⟩
+    · -- no match template is written for this tag: the windows are not consulted
+      obtain ⟨h1, h2⟩ := firstMatchFrom_none_of_notin (rng := rR) (rng' := rI) h.mts htT 0
+      simp only [firstMatch, h1, h2]
       apply RRel.bind
-      · apply ihb rR rR s s' _ h
-        refine .inl ⟨rfl, hn, fun hzz => hf ?_⟩
-        cases z <;> simp_all
+      · apply ihb rR rI s s' _ h
+        exact hc.sub (by intro hz; simpa [htT] using hz) (by intro hw; simp only [winfreeN, Bool.and_eq_true] at hw; exact hw.2)
       · intro r1 r1' ho hs
         exact ⟨by rw [ho], hs⟩
-    · simp only [firstMatch, h1, h2]
-      apply RRel.bind
-      · apply ihb _ _ s s' _ h
-        exact .inl ⟨rfl, rfl, fun hzz => by simp [hT] at hzz⟩
-      · intro r1 r1' ho hs
-        apply RRel.bind
-        · exact hJ true _ _ mb mb' _ _ hmb (.inl ⟨rfl, rfl, fun hzz => by cases hzz⟩)
-            { hs with sel := by simp [ho, hs.sel] }
-        · intro r2 r2' ho2 hs2
-          exact ⟨ho2, { hs2 with sel := by simp [hs2.sel] }⟩
   | @cond z c b b' r r' _ _ ihb ih =>
     intro rR rI s s' hc h
     rw [renderL_cons, renderL_cons]
@@ -543,7 +603,7 @@ theorem simL {T files} (hload : LoadOK T files) (htx : TextOK files) {J J' : RJ}
     | err e => rfl
     | ok bb =>
       cases bb with
-      | true => exact ihb rR rI s s' (hc.sub (by simp [textualN])) h
+      | true => exact ihb rR rI s s' (hc.sub id (by simp [winfreeN])) h
       | false => exact ⟨rfl, h⟩
   | @loop z x xs b b' r r' _ _ ihb ih =>
     intro rR rI s s' hc h
@@ -552,7 +612,7 @@ theorem simL {T files} (hload : LoadOK T files) (htx : TextOK files) {J J' : RJ}
     rw [renderN_loop, renderN_loop, ← h.lookup]
     cases s.lookup xs with
     | none => rfl
-    | some v => exact loopItems_rel x (fun s1 s1' h1 => ihb rR rI s1 s1' (hc.sub (by simp [textualN])) h1) _ s s' h
+    | some v => exact loopItems_rel x (fun s1 s1' h1 => ihb rR rI s1 s1' (hc.sub id (by simp [winfreeN])) h1) _ s s' h
   | @defn z m b b' r r' hb _ _ ih =>
     intro rR rI s s' hc h
     rw [renderL_cons, renderL_cons]
@@ -570,7 +630,7 @@ theorem simL {T files} (hload : LoadOK T files) (htx : TextOK files) {J J' : RJ}
     rw [renderL_cons, renderL_cons]
     refine seq_rel ?_ (fun s1 s1' h1 => ih rR rI s1 s1' hc.tail h1)
     rw [renderN_inlined, renderN_inlined]
-    exact hJ z rR rI b b' s s' hb (hc.sub (by simp [textualN])) h
+    exact hJ z rR rI b b' s s' hb (hc.sub id (by simp [winfreeN])) h
   | @keep z hr c hf fb fb' p r r' _ _ ihfb ih =>
     intro rR rI s s' hc h
     rw [renderL_cons, renderL_cons]
@@ -594,7 +654,12 @@ theorem simL {T files} (hload : LoadOK T files) (htx : TextOK files) {J J' : RJ}
           cases e with
           | notFound =>
             cases hf with
-            | true => exact ihfb _ _ s s' (hc.fresh (by simp [textualN])) h
+            | true =>
+              refine ihfb _ _ s s' (hc.fresh ?_) h
+              intro hw
+              cases hr <;> simp only [winfreeN, Bool.and_eq_true] at hw
+              · exact hw.2
+              · exact hw
             | false => rfl
           | syntaxErr => rfl
           | undefined => rfl
@@ -604,8 +669,8 @@ theorem simL {T files} (hload : LoadOK T files) (htx : TextOK files) {J J' : RJ}
           obtain ⟨body', c', hli, hpb, hc'⟩ := hl
           simp only [hli, Res.map_ok]
           refine hJ false _ _ body body' _ _ hpb (Coup.ofKind (loadRaw_text htx hraw) ?_) { h with cache := hc' }
-          intro hk; subst hk; rfl
-  | @inlineFound hh c hf fb p name body body' r r' hres hfind hb _ _ ih =>
+          intro hk; subst hk; exact .inl rfl
+  | @inlineFound z hh c hf fb p name body body' r r' hres hfind hw hb _ _ ih =>
     intro rR rI s s' hc h
     rw [renderL_cons, renderL_cons]
     refine seq_rel ?_ (fun s1 s1' h1 => ih rR rI s1 s1' hc.tail h1)
@@ -616,10 +681,13 @@ theorem simL {T files} (hload : LoadOK T files) (htx : TextOK files) {J J' : RJ}
     · intro hk; subst hk; exact htx name body hfind
     · intro hk
       subst hk
-      rcases hc with ⟨he, _, hfull⟩ | ⟨_, ht⟩
-      · rw [← he]; exact hfull rfl
-      · simp [textualL, textualN] at ht
-  | @inlineMissing hh c fb fb' p name r r' hres hfind _ _ ihfb ih =>
+      cases z with
+      | true => exact .inr (hw rfl)
+      | false =>
+        rcases hc with ⟨he, _, hfull⟩ | ht
+        · exact .inl (he ▸ hfull rfl)
+        · simp [winfreeL, winfreeN] at ht
+  | @inlineMissing z hh c fb fb' p name r r' hres hfind hw _ _ ihfb ih =>
     intro rR rI s s' hc h
     rw [renderL_cons, renderL_append]
     refine seq_rel ?_ (fun s1 s1' h1 => ih rR rI s1 s1' hc.tail h1)
@@ -627,10 +695,13 @@ theorem simL {T files} (hload : LoadOK T files) (htx : TextOK files) {J J' : RJ}
     simp only [evalHref, Res.bind_ok, hres, loadT, loadRaw, hfind,
       Res.map_err, if_true]
     refine ihfb _ _ s s' ?_ h
-    rcases hc with ⟨he, hn, hfull⟩ | ⟨_, ht⟩
-    · subst he
-      rw [Rng.fresh_of_nomt hn, hfull rfl]; exact .full
-    · simp only [textualL, textualN, Bool.and_eq_true] at ht
-      exact .inr ⟨rfl, ht.1.2⟩
+    cases z with
+    | true => exact .inr (hw rfl)
+    | false =>
+      rcases hc with ⟨he, hn, hfull⟩ | ht
+      · subst he
+        rw [Rng.fresh_of_nomt hn, hfull rfl]; exact .full
+      · simp only [winfreeL, winfreeN, Bool.and_eq_true] at ht
+        exact .inr ht.1.2
 
 end Genshi.Incl
